@@ -7,7 +7,7 @@ from harness.core import cN, cZ, clist, ctuple, cnat
 from harness.gen import c12docs
 
 IMPORTS = ('From Coq Require Import List ZArith NArith.\n'
-           'From PC Require Import Base.Py Base.Mat Gen.Transforms Model.Transforms Model.Traverse Check.C12.\n'
+           'From PC Require Import Base.Py Base.Mat Gen.Transforms Gen.Bound Model.Transforms Model.Traverse Check.C12.\n'
            'Import ListNotations.\n')
 CASE_TYPE = 'C12.case'
 TAGS = {'translate': 0, 'rotate': 1, 'scale': 2, 'matrix': 3}
@@ -27,7 +27,8 @@ def c_lib(lib):
     for g in lib['geoms']:
         prims = []
         for p in g['prims']:
-            prims.append(ctuple(cN(0 if p['symbol'] is None else S[p['symbol']]),
+            prims.append(ctuple(cnat({'triangles': 0, 'polylist': 1, 'polygons': 1, 'lines': 2}[p['kind']]),
+                                cN(0 if p['symbol'] is None else S[p['symbol']]),
                                 clist([c_vec(v) for v in g['verts']]),
                                 'None' if not p['normals'] else '(Some %s)' % clist([c_vec(v) for v in g['normals']])))
         geoms.append(ctuple(cN(A[g['id']]), clist(prims)))
@@ -38,7 +39,8 @@ def c_lib(lib):
         else:
             ctrls.append(ctuple(cN(A[c['id']]), ctuple(cnat(1), '[]', cN(A[c['geometry']]))))
     lights = [ctuple(cN(A[l['id']]), cnat(c12docs.LIGHT_KINDS.index(l['kind']))) for l in lib['lights']]
-    return 'Definition thelib : C12.lib := C12.Lib\n  %s\n  %s\n  %s.\n' % (clist(geoms), clist(ctrls), clist(lights))
+    cams = [ctuple(cN(A[c['id']]), cnat(0 if c['kind'] == 'perspective' else 1)) for c in lib['cameras']]
+    return 'Definition thelib : C12.lib := C12.Lib\n  %s\n  %s\n  %s\n  %s.\n' % (clist(geoms), clist(ctrls), clist(lights), clist(cams))
 
 
 def c_transform(t):
